@@ -154,3 +154,47 @@ func Clone(v any) any {
 	}
 	panic("sig: unknown root type")
 }
+
+// Simple builds a minimal payload of signal s holding n items (log records,
+// spans, gauge data points, samples of one profile) tagged with the ids
+// first, first+1, …
+func Simple(s string, first int64, n int) any {
+	next := first
+	switch s {
+	case Logs:
+		ld := plog.NewLogs()
+		sl := ld.ResourceLogs().AppendEmpty().ScopeLogs().AppendEmpty()
+		for i := 0; i < n; i++ {
+			sl.LogRecords().AppendEmpty().Body().SetStr("request body")
+		}
+		pitems.TagLogs(ld, &next)
+		return ld
+	case Traces:
+		td := ptrace.NewTraces()
+		ss := td.ResourceSpans().AppendEmpty().ScopeSpans().AppendEmpty()
+		for i := 0; i < n; i++ {
+			ss.Spans().AppendEmpty().SetName("span")
+		}
+		pitems.TagTraces(td, &next)
+		return td
+	case Metrics:
+		md := pmetric.NewMetrics()
+		m := md.ResourceMetrics().AppendEmpty().ScopeMetrics().AppendEmpty().Metrics().AppendEmpty()
+		m.SetName("m")
+		g := m.SetEmptyGauge()
+		for i := 0; i < n; i++ {
+			g.DataPoints().AppendEmpty().SetIntValue(int64(i))
+		}
+		pitems.TagMetrics(md, &next)
+		return md
+	case Profiles:
+		pd := pprofile.NewProfiles()
+		p := pd.ResourceProfiles().AppendEmpty().ScopeProfiles().AppendEmpty().Profiles().AppendEmpty()
+		for i := 0; i < n; i++ {
+			p.Sample().AppendEmpty()
+		}
+		pitems.TagProfiles(pd, &next)
+		return pd
+	}
+	panic("unknown signal " + s)
+}
